@@ -254,6 +254,7 @@ impl<'c> Gen<'c> {
             2,                                                  // 19 do loop
             2,                                                  // 20 hash consumers
             if pure_ { 0 } else { 3 },                          // 21 assignment clusters
+            4,                                                  // 22 one variable read as an earlier operand of several nested calls
         ];
         match self.c.weighted(&w) {
             0 => self.int(0, pure_),
@@ -422,6 +423,7 @@ impl<'c> Gen<'c> {
                 )
             }
             21 => self.set_cluster(d),
+            22 => self.reuse_nest(d, pure_),
             _ => {
                 let h = self.hash(d - 1, pure_);
                 match self.c.below(3) {
@@ -431,6 +433,47 @@ impl<'c> Gen<'c> {
                 }
             }
         }
+    }
+
+    /// The same variable read several times as an *earlier* operand of nested calls, its last use in the
+    /// innermost call: `(f x (g x (h x k)))`, `(f x x (h x))`, `(apply + (list x (car (list x (* x 2)))))`.
+    /// The compiled tiers keep such reads pending (lazy register reads, move of the last use) until the
+    /// enclosing call is issued.
+    fn reuse_nest(&mut self, d: usize, pure_: bool) -> Expr {
+        let vars = self.visible(|v| v.ty == Ty::Int && !v.mutable);
+        if vars.is_empty() {
+            return self.int(d - 1, pure_);
+        }
+        self.feat("variable-reused-across-nested-operands");
+        let v = vars[self.c.below(vars.len())].name.clone();
+        let procs2 = self.visible(|v| matches!(&v.ty, Ty::Proc { n: 2, rest: false, pure_: p } if !pure_ || (*p && !v.mutable)));
+        let levels = 2 + self.c.below(3);
+        let k = self.c.range(1, 4);
+        let mut e = match self.c.below(4) {
+            0 => var(&v),
+            1 => app("*", vec![var(&v), int(k)]),
+            2 => app("car", vec![app("list", vec![var(&v)])]),
+            _ => app("-", vec![var(&v), int(k)]),
+        };
+        for _ in 0..levels {
+            e = match self.c.below(8) {
+                0 | 1 => app("*", vec![var(&v), e]),
+                2 => app("+", vec![var(&v), e]),
+                3 => app("max", vec![var(&v), e]),
+                4 => app(["+", "*"][self.c.below(2)], vec![var(&v), var(&v), e]),
+                5 => app("apply", vec![var("+"), app("list", vec![var(&v), e])]),
+                6 => app("car", vec![app("cdr", vec![app("cons", vec![var(&v), app("cons", vec![e, Expr::Quote(Datum::List(vec![]))])])])]),
+                _ => {
+                    if procs2.is_empty() {
+                        app("-", vec![var(&v), e])
+                    } else {
+                        self.feat("call-known-procedure");
+                        app(&procs2[self.c.below(procs2.len())].name, vec![var(&v), e])
+                    }
+                }
+            };
+        }
+        e
     }
 
     /// n operands; at most one is impure (and then the others are pure)
